@@ -82,12 +82,15 @@ func (t *ATable) Column(n int) *column {
 // Any existing errors in the row become table errors.
 func (t *ATable) AddRow(row *Row) Table {
 	t.rows = append(t.rows, row)
+	// a row which is already in a table shares that table's error container:
+	// only a row joining its first table has errors of its own to hand over
+	ownErrors := row.inTable == nil
 	row.inTable = t
 	row.rowNum = len(t.rows)
 	t.resizeColumnsAtLeast(len(row.cells))
 	// swallow existing errors
 	es := row.Errors()
-	if es != nil {
+	if es != nil && ownErrors {
 		t.AddErrorList(es)
 		// TODO: do we want an AddContextualErrorList which prepends a row-id to each error in the table?
 	}
